@@ -179,6 +179,43 @@ def ob_source_uri(ctx: Ctx) -> Outcome:
     return Outcome.ok("ast-shape", count=5)
 
 
+def ob_staleness_containment(ctx: Ctx) -> Outcome:
+    """hydrator._check_single_snapshot (check_staleness, `octave hydrate --check`): the source is hashed / probed for
+    existence only after `source_path.relative_to(effective_root)` succeeded - a ValueError returns the ERROR result - with
+    source_path = (base_path / source_uri).resolve() and effective_root = (allowed_root or base_path).resolve(); absolute
+    URIs are refused first"""
+    from props import C19_b
+    from verif.common import shape_verdict
+
+    try:
+        fn = extract.find_def(HYD, "_check_single_snapshot")
+    except ExtractionError as e:
+        return Outcome.undecided("ast-shape", str(e))
+    probs = []
+    src = ast.unparse(fn)
+    for text in ("candidate = base_path / source_uri", "source_path = candidate.resolve()", "effective_root = (allowed_root or base_path).resolve()"):
+        if text not in src:
+            probs.append(f"`{text}` not found")
+    body = fn.body
+    guard = [i for i, st in enumerate(body) if isinstance(st, ast.Try) and [ast.unparse(x) for x in st.body] == ["source_path.relative_to(effective_root)"] and len(st.handlers) == 1 and ast.unparse(st.handlers[0].type) == "ValueError" and isinstance(st.handlers[0].body[-1], ast.Return) and "'ERROR'" in ast.unparse(st.handlers[0].body[-1]) and not st.orelse and not st.finalbody]
+    if len(guard) != 1:
+        probs.append("no top-level `try: source_path.relative_to(effective_root) except ValueError: return <ERROR result>`")
+    else:
+        gi = guard[0]
+        for i, st in enumerate(body):
+            uses = any(isinstance(c, ast.Call) and (ast.unparse(c.func) in ("compute_vocabulary_hash", "open") or (isinstance(c.func, ast.Attribute) and c.func.attr in ("exists", "read_text", "read_bytes", "open", "stat", "is_file"))) and "source_path" in ast.unparse(c) for c in ast.walk(st))
+            if uses and i < gi:
+                probs.append(f"L{st.lineno}: the source path is accessed before the containment check")
+        stores = [n for n in ast.walk(fn) if isinstance(n, ast.Name) and isinstance(n.ctx, ast.Store) and n.id in ("source_path", "effective_root")]
+        if len([x for x in stores if x.id == "source_path"]) != 1 or len([x for x in stores if x.id == "effective_root"]) != 1:
+            probs.append("source_path / effective_root are assigned more than once")
+    if "source_uri.startswith('/')" not in src:
+        probs.append("absolute SOURCE_URI paths are not refused first")
+    if probs:
+        return shape_verdict("ast-shape", probs, C19_b.replay_staleness_probe, 5, {"runner": "props.C19_b:replay_staleness_probe", "args": {}})
+    return Outcome.ok("ast-shape", count=5)
+
+
 VALIDATORS = [(WRITE, "WriteTool._validate_path", "self.ALLOWED_EXTENSIONS"), (VALIDATE, "ValidateTool._validate_path", "self.ALLOWED_EXTENSIONS"), (FOPS, "validate_octave_path", "ALLOWED_EXTENSIONS")]
 
 
@@ -318,6 +355,7 @@ def obligations(ctx: Ctx):
         Ob(f"{P}.R2", "R", "a frozen reference is 'frozen@sha256:' + 64 hex digits; cache file from the digest alone; returned only when the streamed hash equals it", [f"{HYD}:resolve_hermetic_standard"], ob_frozen),
         Ob(f"{P}.F1", "F", "the three path validators: '..' refusal, per-component lstat walk refusing every symlink, extension allow-list, exceptions refuse; tools return E_PATH before any access", FUNCS[:3], ob_validators),
         Ob(f"{P}.F2", "F", "the tools pass the schema argument only to the name-based loaders", [f"{WRITE}:WriteTool.execute", f"{VALIDATE}:ValidateTool.execute"], ob_schema_routes),
+        Ob(f"{P}.F5", "F", "staleness check: the vocabulary source is touched only after resolved.relative_to(resolved allowed root) succeeded", [f"{HYD}:_check_single_snapshot"], ob_staleness_containment),
         Ob(f"{P}.F4", "F", "validate_source_uri returns only a path for which resolved.relative_to(resolved base) succeeded", [f"{HYD}:validate_source_uri"], ob_source_uri),
     ]
     try:
